@@ -519,9 +519,10 @@ func ToQuantity(ctx *expr.Context, input system.Collection, args ...expr.Express
 			return system.Collection{result}, nil
 		}
 		res := strings.SplitN(string(value), " ", 2)
-		if len(res) < 2 {
-			// No space between number and unit ("5", "5'mg'"): take the parts
-			// from the match; a bare number has the default unit.
+		if len(res) < 2 || res[0] != matches[regex.SubexpIndex("value")] {
+			// No space between number and unit ("5", "5'mg'"), or other white
+			// space after the number ("5\t mg"): take the parts from the
+			// match; a bare number has the default unit.
 			unit := matches[regex.SubexpIndex("unit")]
 			if unit == "" {
 				unit = matches[regex.SubexpIndex("time")]
